@@ -273,6 +273,10 @@ def run_config(plan, knobs, with_eig=False, faults=None):
         try:
             ok = ss.EIG.run()
             out['mu'] = np.array(ss.EIG.mu).copy() if ok else None
+            if ok:
+                from kvxopt import matrix as _m
+                out['As'] = np.array(_m(ss.EIG.As))
+                out['cond_gy'] = float(np.linalg.cond(np.array(_m(ss.dae.gy)), 1)) if ss.dae.m <= 1500 else float('nan')
         except Exception as e:
             out['eig_exc'] = repr(e)[:200]
     taps = tdssim.Taps(hist, faults=tdssim.solver_fault_map(p), persist=False, check_mirror=False).install(ss)
@@ -335,6 +339,33 @@ def run_stale(plan):
     return v, probes, [plan['case'], plan['backend'], len(plan['at'])], b['hist']
 
 
+def _transplant_As(plan, ka, kb):
+    """max |As_a - As_b| with configuration b evaluated at configuration a's operating point (same bits)."""
+    from kvxopt import matrix as _m
+    try:
+        out = []
+        xy = None
+        for kn in (ka, kb):
+            p = {'case': plan['case'], 'knobs': kn, 'channels': {}, 'events': [], 'disable_stock_events': False,
+                 'segments': [plan['tf']], 'seed': plan['seed'], 'faults': []}
+            np.random.seed(core.H(plan['seed'], 'numpy') % (2 ** 32))
+            ss, _ = tdssim.build(p)
+            if not ss.PFlow.run() or not ss.EIG.run():
+                return None
+            if xy is None:
+                xy = (ss.dae.x.copy(), ss.dae.y.copy())
+            else:
+                ss.dae.x[:] = xy[0]
+                ss.dae.y[:] = xy[1]
+                ss.vars_to_models()
+                if not ss.EIG.run():
+                    return None
+            out.append(np.array(_m(ss.EIG.As)))
+        return float(np.max(np.abs(out[0] - out[1])))
+    except Exception:
+        return None
+
+
 def run_cross(plan):
     v, probes = [], {}
     ka = _opts_to_knobs(plan['a'], plan['tstep'], plan.get('tds_method', 'trapezoid'))
@@ -355,7 +386,41 @@ def run_cross(plan):
     if d > 1e-9:
         v.append(V('cross_option', 'power-flow solutions differ by %.3g (%s)' % (d, desc), what='pf', diff=plan['what']))
     if plan.get('eig') and a.get('mu') is not None and b.get('mu') is not None:
-        if spectrum_distance(a['mu'], b['mu']) > 1e-6:
+        # the well-posed object is the state matrix; eigenvalues of a (nearly) defective matrix move by eps**(1/k) under rounding
+        # (kundur_reg: kappa(V) = 8e18, As equal to 1e-12, eigenvalues differ in the second digit), so the spectra are compared
+        # only where the Bauer-Fike bound kappa(V) * ||dAs|| says rounding cannot separate them
+        Aa, Ab = a.get('As'), b.get('As')
+        eps = np.finfo(float).eps
+        if Aa is not None and Ab is not None and Aa.shape == Ab.shape:
+            cg = a.get('cond_gy')
+            tolA = max(1e-6, 50 * eps * cg if np.isfinite(cg) else 1e-6) * (1.0 + float(np.max(np.abs(Aa))))
+            dA = float(np.max(np.abs(Aa - Ab)))
+            if not dA <= tolA:
+                # discriminate "the option changes the linearisation" from "the two operating points, equal to rounding, lie on
+                # different sides of a break point of a piecewise characteristic" (kundur_reg: PV set point 1.0 == REGCA1.Lvpnt1):
+                # evaluate configuration b at configuration a's operating point, bit for bit
+                dT = _transplant_As(plan, ka, kb)
+                if dT is not None and dT <= tolA:
+                    probes['eig_breakpoint_tie'] = 1
+                    Ab = Aa
+                else:
+                    v.append(V('cross_option', 'state matrices differ by %.3g (allowed %.3g; %s at the bit-identical operating point) '
+                               'between configurations (%s)' % (dA, tolA, 'n/a' if dT is None else '%.3g' % dT, desc),
+                               what='eig_As', diff=plan['what']))
+            try:
+                kV = float(np.linalg.cond(np.linalg.eig(Aa)[1]))
+            except np.linalg.LinAlgError:
+                kV = float('inf')
+            well = kV * max(np.linalg.norm(Aa - Ab, 2), eps * np.linalg.norm(Aa, 2)) <= 1e-7 * (1.0 + float(np.max(np.abs(a['mu']))))
+            if probes.get('eig_breakpoint_tie'):
+                well = False          # the two spectra belong to different branches
+            probes['eig_illconditioned'] = int(not well)
+        else:
+            well = Aa is None and Ab is None
+            if not well:
+                v.append(V('cross_option', 'state matrix has different shapes between configurations (%s)' % desc, what='eig_As',
+                           diff=plan['what']))
+        if well and spectrum_distance(a['mu'], b['mu']) > 1e-6:
             v.append(V('cross_option', 'eigenvalues differ between configurations (%s)' % desc, what='eig', diff=plan['what']))
         probes['eig_compared'] = 1
     elif plan.get('eig') and (a.get('eig_exc') or b.get('eig_exc')) and bool(a.get('eig_exc')) != bool(b.get('eig_exc')):
